@@ -168,7 +168,7 @@ def dispatch(rep):
             continue       # documented as not implemented (explicit NotImplementedError) for mixed polynomial / array operands
         args = [mk[k]() for k in kinds]
         if name == "outer":
-            args = [a[0] if not isinstance(a, float) else a for a in args]
+            args = [a[i_] if not isinstance(a, float) else a for i_, a in enumerate(args)]      # (different rows: the result is not symmetric)
         if name == "solve" and kinds == ["A", "U"]:
             pass
         fn = getattr(algopy, name)
@@ -179,9 +179,16 @@ def dispatch(rep):
             if route == "U":
                 if not isinstance(first, UTPM):
                     rep.violation("dispatch %s%s: a polynomial argument must give a polynomial result" % (name, kinds), {"type": type(first).__name__})
+                elif name in ("dot", "outer", "solve", "minimum", "maximum"):
+                    # every operand-kind combination of the binary functions: zeroth coefficient and shape per direction from NumPy
+                    npf = numpy.linalg.solve if name == "solve" else getattr(numpy, name)
+                    for p_ in range(first.data.shape[1]):
+                        ref = npf(*[a.data[0, p_] if isinstance(a, UTPM) else a for a in args])
+                        if first.data[0, p_].shape != numpy.shape(ref) or not numpy.allclose(first.data[0, p_], ref, rtol=1e-12, atol=1e-13):
+                            rep.violation("dispatch %s%s: zeroth coefficient differs from NumPy" % (name, kinds), {"direction": p_}); break
             else:
                 npf = spfun.get(name) or getattr(numpy.linalg if route == "numpy.linalg" else numpy, name)
-                ref = npf(*[mk[k]() if name != "outer" else (mk[k]()[0] if k == "A" else mk[k]()) for k in kinds])
+                ref = npf(*[mk[k]() if name != "outer" else (mk[k]()[i_] if k == "A" else mk[k]()) for i_, k in enumerate(kinds)])
                 rf = ref[0] if isinstance(ref, tuple) else ref
                 if type(first) is not type(rf) or not numpy.array_equal(numpy.asarray(first), numpy.asarray(rf), equal_nan=True):
                     rep.violation("dispatch %s%s: plain arguments must give exactly the NumPy/SciPy result" % (name, kinds),
